@@ -53,7 +53,7 @@ Expected(nt, g, st) ==
         bottom == den(1, 1)
     IN IF ~top[1] THEN [decided |-> TRUE, accept |-> FALSE, needs_draw |-> FALSE]
        ELSE IF bottom = 0 THEN [decided |-> FALSE, accept |-> FALSE, needs_draw |-> FALSE]
-       ELSE [decided |-> st.drew, accept |-> st.drew /\ top[2] * 2 * st.W > bottom * (2 * st.j + 1), needs_draw |-> TRUE]
+       ELSE [decided |-> st.drew, accept |-> st.drew /\ (IF st.uz THEN top[2] > 0 ELSE top[2] * 2 * st.W > bottom * (2 * st.j + 1)), needs_draw |-> TRUE]
 
 (* L1 distance between the mixing matrix of topology tp in graph g and the normalised target, in units of 1/1000:
    sum_{a,b} |c_ab/(2E) - w_ab/W| with c_ab = number of edge ends whose own excess is a and whose partner's is b *)
